@@ -1562,18 +1562,19 @@ class Key(object):
 
         :return str: Base58 or Bech32 encoded address
         """
+        # The requested form of the public key is used for this address only, the key itself does not change
         if (self.compressed and compressed is None) or compressed:
             data = self.public_compressed_byte
-            self.compressed = True
+            compressed = True
         else:
             data = self.public_uncompressed_byte
-            self.compressed = False
+            compressed = False
         if encoding is None:
             if self._address_obj:
                 encoding = self._address_obj.encoding
             else:
                 encoding = 'base58'
-        if not self.compressed and encoding == 'bech32':
+        if not compressed and encoding == 'bech32':
             raise BKeyError("Uncompressed keys are non-standard for segwit/bech32 encoded addresses")
         if self._address_obj and script_type is None:
             script_type = self._address_obj.script_type
